@@ -23,3 +23,9 @@ func raceJoinAll(x *Exec)   { runtime.RaceAcquire(unsafe.Pointer(&joinWord)) }
 // unlock->lock edges).
 func Release(p unsafe.Pointer) { runtime.RaceReleaseMerge(p) }
 func Acquire(p unsafe.Pointer) { runtime.RaceAcquire(p) }
+
+// WriteRange / ReadRange tell the race runtime that the calling thread wrote /
+// read n bytes at p: the network shim uses them where the Go runtime annotates
+// real socket reads (the kernel writes the caller's buffer) and writes.
+func WriteRange(p unsafe.Pointer, n int) { runtime.RaceWriteRange(p, n) }
+func ReadRange(p unsafe.Pointer, n int)  { runtime.RaceReadRange(p, n) }
